@@ -46,6 +46,8 @@ func c17One(token, sc bool, major, minor byte, ver, ext uint16, kind string, rep
 	if strings.Contains(kind, "+after-session") && base != "proc" && !sc {
 		cfg.Prelude = c17Prelude(token)
 	}
+	// "+authenticated": the request carries an identity that an HTTP-level scheme has already confirmed
+	cfg.Authenticated = strings.Contains(kind, "+authenticated")
 	tc := tsgu.TunnelCreate("ok|"+hostA+":3389|10.0.0.1|alice", true)
 	segs := []Seg{{Bytes: tsgu.Handshake(major, minor, ver, ext)}, {Bytes: tc}}
 	if coalesced {
@@ -129,7 +131,7 @@ func c17One(token, sc bool, major, minor byte, ver, ext uint16, kind string, rep
 func c17(env *Env, rep *Report) {
 	rep.Rule = "for all 4 server settings of {cookie auth, smart-card auth}: every one of the 65536 client extended-auth values (x version byte pairs (1,0),(0,0),(255,255) in thorough), and all 65536 version byte pairs for client values {0,1,2,3,4,0xFFFF} (quick: for client value 2 only); " +
 		"each is one execution of the real Processor: HANDSHAKE then a well-formed TUNNEL_CREATE; the handshake must succeed iff both sides are empty or intersect, advertise exactly the enabled mechanisms, echo the version bytes; on failure status E_PROXY_CAPABILITYMISMATCH, tunnel ended, TUNNEL_CREATE unanswered. " +
-		"A sample of the same cases runs over the websocket and legacy handlers, with the handshake and the tunnel create arriving in one transport read, and after an earlier tunnel went through a whole session ending in an orderly close (non-initial gateway state). distinct_nontrivial = distinct (setting, client value, version) cases evaluated."
+		"A sample of the same cases runs over the websocket and legacy handlers, with the handshake and the tunnel create arriving in one transport read, and after an earlier tunnel went through a whole session ending in an orderly close (non-initial gateway state), and with a request identity that an HTTP-level scheme has already authenticated. distinct_nontrivial = distinct (setting, client value, version) cases evaluated."
 	rep.Assumptions = append(rep.Assumptions, "processor level over a message pipe (one packet per read); client version word fixed to 0")
 	type cse struct {
 		token, sc    bool
@@ -198,7 +200,7 @@ func c17(env *Env, rep *Report) {
 					run(cse{token, sc, byte(vv >> 8), byte(vv), ext, "proc"})
 				}
 			}
-			for _, kind := range []string{"ws", "legacy", "proc+coalesced", "ws+coalesced", "legacy+coalesced", "ws+after-session", "legacy+after-session", "ws+coalesced+after-session"} {
+			for _, kind := range []string{"ws", "legacy", "proc+coalesced", "ws+coalesced", "legacy+coalesced", "ws+after-session", "legacy+after-session", "ws+coalesced+after-session", "proc+authenticated", "ws+authenticated", "legacy+authenticated"} {
 				for ext := 0; ext < 65536; ext += 257 {
 					run(cse{token, sc, 1, 0, uint16(ext), kind})
 				}
